@@ -25,6 +25,18 @@ int main(int argc, char **argv)
     size_t rr = r.answers.size() + r.authority.size() + r.additional.size();
     if (12 + 5 * r.questions.size() + 11 * rr > d.size()) replay_io::fail("M5: more questions/records than the message has room for");
     if (r.soa_records.size() > rr || r.a_records.size() > rr || r.srv_records.size() > rr) replay_io::fail("M6: more typed records than records");
+    // M7 (precondition of parseTypedRecord: it is given the record's own RDATA offset): every MX record whose exchange is an uncompressed
+    // literal name ending inside RDATA must come out as a typed MX record with exactly that exchange
+    size_t want_mx = 0; std::vector<std::string> exch;
+    auto scan = [&](const std::vector<DnsResourceRecord> &sec) {
+      for (const auto &x : sec) if (x.type == DnsType::MX && x.rdata.size() >= 3) {
+        size_t o = 2; std::string nm; bool ok = true;
+        while (ok) { if (o >= x.rdata.size()) { ok = false; break; } uint8_t l = x.rdata[o]; if (l == 0) break; if (l > 63 || o + 1 + l > x.rdata.size()) { ok = false; break; }
+                     if (!nm.empty()) nm += '.'; nm.append((const char *)&x.rdata[o + 1], l); o += 1 + l; }
+        if (ok) { want_mx++; exch.push_back(nm); } } };
+    scan(r.answers); scan(r.authority); scan(r.additional);
+    if (r.mx_records.size() < want_mx) replay_io::fail("M7: a well-formed MX record (literal exchange '" + exch.back() + "') has no typed record: typed decoding was given a wrong RDATA offset");
+    for (size_t i = 0; i < want_mx && want_mx == r.mx_records.size(); i++) if (r.mx_records[i].exchange != exch[i]) replay_io::fail("M7: MX exchange differs from RDATA");
   }
   delete[] buf;
   replay_io::ok(threw ? "rejected with DnsParseException: " + what : "decoded; clauses M2-M6 hold");
